@@ -267,6 +267,74 @@ CLAIMS['C08'] = {
     'technique': 'Lean 4 proof (inductive invariant over all op lists of a two-endpoint + packet-history model; induction over rounds for liveness) '
                  '+ model/implementation differential replay + executable predicate on implementation outputs + e2e scenarios',
 }
+# ---- receive half of the association (Model/Receiver.lean, go/harness/recv_test.go) ---------------------------------------------
+RECV_NOTE = (' RECEIVE HALF: the L0 model Model/Receiver.lean is hand-written (handleData, acceptPayloadData, pushPayloadDataToStream, '
+             'handlePeerLastTSNAndAcknowledgement, handleChunksStart/End, onAckTimeout, createSelectiveAckChunk and the SACK/ABORT/control part of gatherOutbound, '
+             'handleForwardTSN, handleIForwardTSN, handleHeartbeat, the outgoing-reset part of handleReconfigParam, resetStreamsIfAny, Stream.ReadSCTP, the DATA check()) and '
+             'COMPOSES the component models RecvQ, Reasm and the ack-timer automaton AckSys (nothing re-modelled); its credit clamp, zero-window admission test, state gate, '
+             'kind test, gap test, sackNow, the three ack-decision conditions, the stale-FORWARD-TSN tests, the deferred-reset test and the SACK-pending test are Gen.* expression '
+             'sites regenerated from association.go on every run. Tie: direct-drive correspondence TestVerifAssocReceiver - one real Association driven single-threaded under '
+             'testing/synctest through the real inbound path (real marshal + handleInbound); after EVERY op the whole white-box state line (cumulative TSN, queue size, gap blocks, '
+             'ack state, ack timer, advertised credit, user bytes held per Stream OBJECT found by walking the real reassembly structures - objects already deleted from a.streams '
+             'included -, stream count, accept backlog, ABORT flag, association state, virtual time) and every packet of gatherOutbound are compared with the model; honest peer '
+             '(fragmenting, reordering, duplicating, losing + retransmitting, abandoning + FORWARD-TSN, stream resets) and hostile peer (ignores the window, TSNs anywhere in the '
+             'number space, duplicates of everything, zero-length DATA, wrong chunk kinds, stale and far FORWARD-TSNs, unknown streams, > 16 unaccepted streams, unread streams, raw '
+             'mutated packets); every sequence run twice as a shift pair (peer initial TSN mid-space / just below 2^32). Not modelled: SHUTDOWN exchange, the round-trip estimator, '
+             'Go map iteration order of simultaneous reset responses (packets compared as a multiset), decoding (raw packets are classified by the real decoder).')
+
+CLAIMS['C05']['text'] += (' ASSOCIATION LEVEL (Props/C05recv.lean): C05_assoc_sack_sound / C05_assoc_sack_complete - every SACK gatherOutbound emits after ANY op list carries exactly '
+    'the receive-queue state, which is the state of a ghost-instrumented run of association-level queue operations, so S1 (cumulative point covers only accepted or skipped TSNs), '
+    'S2 (gap blocks name only accepted TSNs; sorted, disjoint, non-adjacent) and S4 (every accepted TSN reported, blocks maximal) hold for it; C05_assoc_cum_monotone - no inbound chunk '
+    'moves the cumulative point backwards. The executable ghost-set predicate is evaluated on every SACK and after every op of the real association. Not lifted: "blocks start at offset >= 2" '
+    '(holds in the model except after a reassembly-limit ABORT).')
+CLAIMS['C05']['note'] += RECV_NOTE
+CLAIMS['C16']['text'] += (' Receive half of the association: every receiver sequence of TestVerifAssocReceiver is run as a shift pair and compared after normalising TSNs.')
+CLAIMS['C11']['text'] = CLAIMS['C11']['text'].replace(
+    'Statements (b)-(d) (a_rwnd formula over streams, window admission, zero-window rule) belong to the Receiver model and are NOT covered yet.',
+    'ASSOCIATION LEVEL (Props/C11recv.lean, all op lists of the receive-half model): C11_credit_formula - getMyReceiverWindowCredit, i.e. the a_rwnd of every SACK, = buffer minus user '
+    'bytes held by the REGISTERED streams, clamped at 0 (full buffer when they hold nothing), every per-stream counter exact along association runs (fewer than 2^63 user bytes in total; sum '
+    'below 2^32); C11_window_admission - the user bytes held by all stream objects grow by at most the chunk length and only if the TSN lies in (cum, cum+maxTSNOffset], maxTSNOffset <= 40000, '
+    'is not held, a stream object exists, and there is credit or the TSN is below the highest TSN received; C11_zero_window_admission - at zero credit only chunks serially below the highest '
+    'TSN received are stored. Executable predicates on the real association: a_rwnd of every SACK and the credit after every op against a walk of the real structures, window and zero-window '
+    'rule per stored chunk, held-bytes delta per op, bytes bound buffer + maxTSNOffset x largest chunk, full buffer at the drained marker. '
+    'C11_bytes_bound - for any op list whose DATA chunks carry at most M user bytes each, the registered streams never hold more than buffer + maxTSNOffset*M user bytes '
+    '(potential argument over the unset slots of the receive queue, Proofs/RecvQ/Unset.lean; side conditions buffer + 40000*M < 2^32 and < 2^63 bytes in total), hence '
+    'C11_credit_formula_bounded without a separate no-wrap hypothesis. KNOWN FINDING D13 (replayed every run): a stream reset by the peer is deleted from the table while its '
+    'unread bytes are still held, so they are not counted - the credit formula is over registered streams.')
+CLAIMS['C11']['note'] += RECV_NOTE
+CLAIMS['C19']['text'] = CLAIMS['C19']['text'].replace(
+    'NOT covered here (pending, association level): SACK sent at once on gap/duplicate and within 200 ms of every DATA packet '
+    '(only the ack-timer law it rests on: C19_ack_delay_bound_partial), and the heartbeat echo / round-trip sample (DESIGN D1, D2, D11 live there).',
+    'ASSOCIATION LEVEL (Props/C19recv.lean, receive-half model with the ack-timer automaton embedded): C19_ack_delay_bound - in every reachable state, after any packet, a delayed '
+    'acknowledgement has the ack timer started and armed with a deadline <= arrival + 200 ms, a running timer is never pushed back, and reaching the deadline makes the ack immediate '
+    '(one shot); C19_ack_scheduled - a handled DATA chunk never leaves the ack state idle; C19_ack_immediate_on_gap, C19_ack_immediate_on_dup (with C19_dup_meaning: what canPush refuses); '
+    'C19_immediate_ack_is_sent; C19_heartbeat_echo. Executable predicates on the real association under virtual time: timer expiry within 200 ms of arming, immediacy on gap / duplicate / '
+    'unacceptable TSN, SACK emitted exactly when due, HEARTBEAT echoed with the same info, first round-trip sample from a HEARTBEAT-ACK. Not modelled: the RTT estimator update '
+    '(an unauthenticated HEARTBEAT-ACK with a forged timestamp is accepted as a sample - observed, clamped by the RTO bounds).')
+CLAIMS['C19']['note'] += RECV_NOTE
+CLAIMS['C17']['text'] = CLAIMS['C17']['text'].replace(
+    'The negotiation half (I-DATA/I-FORWARD-TSN exactly when both sides enabled it, wrong kind => protocol-violation ABORT) is tied elsewhere / pending.',
+    'Negotiation half, receive side (Props/C17recv.lean): C17_wrong_kind_abort - DATA under interleaving, I-DATA without it, FORWARD-TSN under interleaving and I-FORWARD-TSN without support '
+    'only raise the ABORT flag (nothing accepted, nothing acknowledged), and C17_abort_is_sent - the next gather emits exactly the protocol-violation ABORT and closes; checked on the real '
+    'association (ABORT flag after every wrong-kind chunk, cause code 13 on the wire).')
+CLAIMS['C17']['text'] = CLAIMS['C17']['text'].replace('Scheduler half proved, negotiation half not claimed here.', 'Scheduler half proved; of the negotiation half the receive side (wrong kind => ABORT) is proved, that each side sends the negotiated kind is C04 + e2e.')
+CLAIMS['C17']['note'] += RECV_NOTE
+CLAIMS['C01']['text'] = CLAIMS['C01']['text'].replace(
+    'NOT covered yet: packetize/TSN assignment (C01_packetize_wf, C01_tsn_assignment), duplicate filtering (C01_dedup, C05), wire content, and the end-to-end NetSys invariant (C01_netsys_prefix).',
+    'RECEIVE-SIDE SYSTEM THEOREM (Props/C01recv.lean, receive-half model of the association): C01_dedup - in every reachable state (any op list) a chunk handed to a stream has a TSN inside the '
+    'tracking window whose absolute index was never accepted before and counts as accepted ever after: a TSN reaches pushWithError at most once per association; C01_receiver_prefix / '
+    'C01_receiver_prefix_idata - for ANY arrival history of chunks drawn from the fragment universe of a message list per stream (any order, duplication, loss, bundling; any number of streams '
+    'sharing the TSN space; initial TSN anywhere incl. the wrap; fewer than 2^31 TSNs in all), interleaved with reads of any buffer size, accept/open/gather/ticks/state changes, the successful '
+    'reads on each ordered stream form a prefix of its messages - composition of C01_dedup with the reassembly refinements, under the 2^15 (SSN) / 2^31 (MID) window hypothesis (D15). '
+    'Executable delivery predicate on the real association against generator ground truth. NOT covered: packetize/TSN assignment on the SEND side (C01_packetize_wf, C01_tsn_assignment), '
+    'wire content, FORWARD-TSN / reset in the prefix theorem (reliable streams only), and the two-endpoint NetSys invariant (C01_netsys_prefix).')
+CLAIMS['C01']['note'] += RECV_NOTE
+if 'C03' in CLAIMS:
+    CLAIMS['C03']['text'] += (' RECEIVE HALF (Props/C03recv.lean): C03_recv_total - no op list drives the receive-half model into its explicit panic outcome (the two empty-slice accesses of '
+        'pushWithError are unreachable: C03_reasm_push_total); C03_stale_fwdtsn_noop / C03_stale_ifwdtsn_noop - a FORWARD-TSN at or behind the cumulative point changes nothing but forces an '
+        'acknowledgement (C03_stale_fwdtsn_acked); C03_zero_length_abort; C03_data_ignored_outside_receive_states. On the real association: every packet under recover(), rejected packets and '
+        'packets in non-receiving states leave the state line unchanged.')
+    CLAIMS['C03']['note'] += RECV_NOTE
 
 _PENDING = 'check not built yet in this round (planned, see DESIGN.md §5/§8); not claimed until its theorems and correspondence run'
 NOT_APPLICABLE = {p: _PENDING for p in ['C%02d' % i for i in range(1, 21)] if p not in CLAIMS}
